@@ -328,7 +328,7 @@ def run(ctx):
                 ctx.ob("C12.R6", o.where, o.ok, o.what, key=o.key, loc=o.loc, detail=o.detail)
     ctx.floor("C12.R6", 99 + 16 + 20 + 3)
     from . import C04
-    C04.shared_obligations(ctx, "C12.R7", {"BitsInteger", "BytesInteger", "FormatField", "Padded", "Select", "IfThenElse", "Enum", "FlagsEnum", "Hex", "HexDump", "Struct", "FocusedSeq", "Array"})
+    C04.shared_obligations(ctx, "C12.R7", {"BitsInteger", "BytesInteger", "FormatField", "Padded", "Select", "IfThenElse", "Enum", "FlagsEnum", "Hex", "HexDump", "Struct", "FocusedSeq", "Array"}, with_expressions=True)
     ctx.floor("C12.R7", 10)
 
     # ---------------------------------------------------------------- R1
